@@ -1160,7 +1160,7 @@ fn main() {
     enum Req {
         Fn(String, Option<String>, Vec<(String, String)>, bool),
         Impl(String, Vec<String>, Vec<(String, String)>, bool),
-        Ty(String, bool),
+        Ty(String, bool, Vec<(String, String)>),
     }
     let mut rs = Vec::new();
     let mut known: HashSet<String> = HashSet::new();
@@ -1204,7 +1204,16 @@ fn main() {
             }
             "struct" | "enum" => {
                 known.insert(w[1].rsplit("::").next().unwrap().to_string());
-                rs.push(Req::Ty(w[1].to_string(), w.iter().any(|x| *x == "nobounds")));
+                let mut renames = Vec::new();
+                if let Some(pos) = w.iter().position(|x| *x == "with") {
+                    for pair in w[pos + 1..].iter().take_while(|x| **x != "nobounds").flat_map(|x| x.split(',')) {
+                        if let Some((a, b)) = pair.split_once('=') {
+                            renames.push((a.to_string(), b.to_string()));
+                            known.insert(b.to_string());
+                        }
+                    }
+                }
+                rs.push(Req::Ty(w[1].to_string(), w.iter().any(|x| *x == "nobounds"), renames));
             }
             "known" => {
                 for k in &w[1..] {
@@ -1334,7 +1343,7 @@ fn main() {
                     }
                 }
             }
-            Req::Ty(path, nobounds) => {
+            Req::Ty(path, nobounds, renames) => {
                 let Some(it) = idx.types.get(&path) else {
                     missing.push(path);
                     continue;
@@ -1372,6 +1381,9 @@ fn main() {
                 }
                 let mut fl = Flatten { known: &known, path_renames: Vec::new() };
                 ts = flatten_tokens(ts, &mut fl);
+                if !renames.is_empty() {
+                    ts = rename_idents(ts, &renames);
+                }
                 out.push_str(&format!("//@@ITEM type {}\n", path));
                 print_tokens(ts, 0, &mut out);
                 out.push_str("//@@END\n\n");
